@@ -228,3 +228,141 @@ pub fn check_frags(
     }
     problems
 }
+
+// ---------------------------------------------------------------------------------------------------------
+// The real command line: `diplomat-tool` built from /repo without the verification cfg.  `gen_in_memory`
+// repeats the statements at the top of `diplomat_tool::gen` (add-only hook); the tie below runs the same input
+// through the real binary — `main.rs` option handling, `Config::read_file` / `read_cli_settings`, `gen` itself,
+// file writing — and demands the same verdict and byte-identical files.
+
+pub fn cli_path() -> String {
+    std::env::var("DIPLOMAT_CLI").unwrap_or_else(|_| "/verif/harness/target/cli/debug/diplomat-tool".into())
+}
+
+#[derive(Debug, Default)]
+pub struct CliOutcome {
+    pub ran: bool,
+    pub code: Option<i32>,
+    pub files: BTreeMap<String, String>,
+    pub stderr: String,
+}
+
+fn read_tree(root: &std::path::Path, dir: &std::path::Path, out: &mut BTreeMap<String, String>) {
+    let Ok(rd) = std::fs::read_dir(dir) else { return };
+    for e in rd.flatten() {
+        let p = e.path();
+        if p.is_dir() {
+            read_tree(root, &p, out);
+        } else if let Ok(t) = std::fs::read_to_string(&p) {
+            out.insert(p.strip_prefix(root).unwrap().to_string_lossy().replace('\\', "/"), t);
+        }
+    }
+}
+
+/// Run the real CLI in `dir` (created, emptied): `src` as `src/lib.rs`, `toml` as `config.toml` when given, every
+/// `cli` entry as one `--config k=v`.
+pub fn cli_gen(dir: &std::path::Path, src: &str, target: &str, toml: Option<&str>, cli: &[String]) -> CliOutcome {
+    let _ = std::fs::remove_dir_all(dir);
+    std::fs::create_dir_all(dir.join("src")).unwrap();
+    std::fs::write(dir.join("src/lib.rs"), src).unwrap();
+    if let Some(t) = toml {
+        std::fs::write(dir.join("config.toml"), t).unwrap();
+    }
+    let mut cmd = std::process::Command::new(cli_path());
+    cmd.arg(target).arg("out").arg("--entry").arg("src/lib.rs").arg("-s").current_dir(dir);
+    for c in cli {
+        cmd.arg("--config").arg(c);
+    }
+    match cmd.output() {
+        Err(e) => CliOutcome { ran: false, stderr: format!("cannot run {}: {e}", cli_path()), ..Default::default() },
+        Ok(o) => {
+            let mut files = BTreeMap::new();
+            read_tree(&dir.join("out"), &dir.join("out"), &mut files);
+            CliOutcome { ran: true, code: o.status.code(), files, stderr: String::from_utf8_lossy(&o.stderr).chars().take(1500).collect() }
+        }
+    }
+}
+
+/// The same input through the hook, with the configuration assembled by the real `Config::read_file` and
+/// `Config::read_cli_settings` in the order `main.rs` applies them.
+pub fn hook_gen_like_cli(dir: &std::path::Path, src: &str, target: &str, toml: Option<&str>, cli: &[String]) -> Outcome {
+    let mut config = Config::default();
+    if let Some(t) = toml {
+        let p = dir.join("hook-config.toml");
+        std::fs::create_dir_all(dir).unwrap();
+        std::fs::write(&p, t).unwrap();
+        let _ = config.read_file(&p);
+    }
+    config.read_cli_settings(cli.to_vec());
+    run_backend_cfg(src, target, config)
+}
+
+/// `None` when both paths agree; otherwise what differs.
+pub fn cli_tie(dir: &std::path::Path, src: &str, target: &str, toml: Option<&str>, cli: &[String]) -> Option<serde_json::Value> {
+    use serde_json::json;
+    let real = cli_gen(&dir.join("cli"), src, target, toml, cli);
+    if !real.ran {
+        return Some(json!({"problem": "the diplomat-tool binary could not be run", "detail": real.stderr}));
+    }
+    let mut hook = hook_gen_like_cli(&dir.join("hook"), src, target, toml, cli);
+    let mut hook_status = hook.status();
+    if target == "demo_gen" && hook.ok() {
+        // `gen` first writes the JS bindings next to the demo unless an import path is configured
+        let configured = |t: &str| t.contains("module_name") || t.contains("relative_js_path") || t.contains("module-name") || t.contains("relative-js-path");
+        let has_path = cli.iter().any(|c| configured(c)) || toml.map(configured).unwrap_or(false) || src.lines().any(|l| l.contains("diplomat::config") && configured(l));
+        if !has_path {
+            let js = hook_gen_like_cli(&dir.join("hook"), src, "js", toml, cli);
+            if js.ok() {
+                for (k, v) in js.files {
+                    hook.files.insert(format!("js/{k}"), v);
+                }
+            } else {
+                hook_status = format!("js bindings for the demo: {}", js.status());
+                hook = js;
+            }
+        }
+    }
+    let real_ok = real.code == Some(0);
+    // a panic in the hook is a panic (exit 101) in the binary; lowering and backend errors are exit 1 with no files
+    if hook.ok() != real_ok {
+        return Some(json!({"problem": "the command line and the in-process pipeline disagree on accepting the input", "cli_exit": real.code, "cli_stderr": real.stderr.lines().take(4).collect::<Vec<_>>(), "in_process": hook_status}));
+    }
+    if hook.ok() && real_ok {
+        let names_a: Vec<&String> = hook.files.keys().collect();
+        let names_b: Vec<&String> = real.files.keys().collect();
+        if names_a != names_b {
+            let only_cli: Vec<&&String> = names_b.iter().filter(|n| !hook.files.contains_key(**n)).take(5).collect();
+            let only_hook: Vec<&&String> = names_a.iter().filter(|n| !real.files.contains_key(**n)).take(5).collect();
+            return Some(json!({"problem": "the command line writes a different set of files than the in-process pipeline", "only_cli": only_cli, "only_in_process": only_hook}));
+        }
+        for (k, v) in &hook.files {
+            if real.files.get(k) != Some(v) {
+                let other = real.files.get(k).cloned().unwrap_or_default();
+                let (la, lb) = v.lines().zip(other.lines()).find(|(a, b)| a != b).map(|(a, b)| (a.to_string(), b.to_string())).unwrap_or_default();
+                return Some(json!({"problem": "a file written by the command line differs from the in-process pipeline's", "file": k, "in_process_line": la, "cli_line": lb}));
+            }
+        }
+    }
+    None
+}
+
+/// `cli_tie` under the configuration `default_config()` gives the in-process runs
+pub fn cli_tie_default(dir: &std::path::Path, src: &str, target: &str) -> Option<serde_json::Value> {
+    cli_tie(dir, src, target, None, &["lib_name=somelib".to_string(), "kotlin.domain=dev.diplomattest".to_string()])
+}
+
+/// The gate as the command line applies it: `Some(contexts)` of the reported lowering errors, `None` when lowering
+/// passed (whatever the backend did afterwards).  `Err` when the binary could not be run.
+pub fn cli_gate(dir: &std::path::Path, src: &str, target: &str, cli: &[String]) -> Result<Option<std::collections::BTreeSet<String>>, String> {
+    let real = cli_gen(dir, src, target, None, cli);
+    if !real.ran {
+        return Err(real.stderr);
+    }
+    let ctxs: std::collections::BTreeSet<String> = real
+        .stderr
+        .lines()
+        .filter_map(|l| l.strip_prefix("Lowering error in "))
+        .filter_map(|l| l.split_once(": ").map(|(c, _)| c.to_string()))
+        .collect();
+    if ctxs.is_empty() { Ok(None) } else { Ok(Some(ctxs)) }
+}
